@@ -300,8 +300,10 @@ def run_one(exe, args, timeout, env=None, wrapper=None):
                 return res
             frm = first[0] + 1
             continue
-        if rc != 0 and res.done is None:
-            # died without a CRASH record (e.g. MSan exit code, OOM kill)
+        if rc != 0 and res.done is None and rc not in (-9, 3):
+            # died without a CRASH record (e.g. MSan exit code).  SIGKILL cannot be raised by the code under test (the
+            # kernel's out-of-memory killer or an operator sent it) and exit code 3 is the harness reporting that it
+            # could not get memory for its own buffers: both leave the shard without DONE, which is inconclusive.
             res.crashes.append([-1, "exit%d" % rc, "?", "", err[-400:].replace("\n", " | ")])
         return res
 
